@@ -238,3 +238,32 @@ Proof.
   intros x Hx. rewrite forallb_forall in H2. specialize (H2 x). rewrite <- elem_of_list_In in H2.
   specialize (H2 Hx). by apply negb_true_iff, bool_decide_eq_false in H2.
 Qed.
+
+(* ---------- 6. sequential_unroll: output marks and step-0 constants only restrict the plain unrolling ---------- *)
+Lemma weakerb_spec U U' : weakerb U U' = true → weaker U U'.
+Proof.
+  unfold weakerb, weaker. rewrite forallb_forall. intros H x j Hx.
+  specialize (H (x, j)). rewrite <- elem_of_list_In, elem_of_map_to_list in H. specialize (H Hx). simpl in H.
+  destruct (U' !! x) as [j'|]; [|done]. exists j'. split; [done|].
+  apply andb_true_iff in H as [H1%bool_decide_eq_true H2]. split; [done|].
+  apply orb_true_iff in H2 as [H2%bool_decide_eq_true|H2%bool_decide_eq_true]; auto.
+Qed.
+Lemma weaker_consistent U U' w : weaker U U' → consistent U' w → consistent U w.
+Proof.
+  intros Hwk Hc x j Hx. destruct (Hwk x j Hx) as (j' & Hx' & Hfi & Hty).
+  pose proof (Hc x j' Hx') as Hok. unfold node_ok in *. destruct Hty as [Hty|Hty].
+  - unfold is_free in *. rewrite Hty, Hfi in Hok. exact Hok.
+  - unfold is_free. by rewrite Hty.
+Qed.
+(* every consistent valuation of such a result simulates the stripped circuit cs cycle by cycle *)
+Theorem seq_result_simulates cs n sio prefix U' w :
+  closed cs → acyclic cs → free_are_inputs cs →
+  NoDup (unroll_nodes cs n sio prefix).*1 →
+  Forall (λ kv, kv.1 ∈ io_of cs ∧ kv.2 ∈ inputs cs) sio →
+  weaker (unroll_closed cs n sio prefix) U' → consistent U' w →
+  let st := λ v, w (io_name v prefix 0) in
+  let ins := λ t i, w (io_name i prefix t) in
+  ∀ o t, o ∈ io_of cs → t < n → w (io_name o prefix t) = run cs sio t st ins o.
+Proof.
+  intros Hcl Hac Hfr Hnd Hsio Hwk Hw. apply unroll_closed_simulates; try done. by eapply weaker_consistent.
+Qed.
